@@ -22,6 +22,13 @@ registry, a class of the history or its base (dict / list / tuple / a middle cla
 get / iterate / keys with one of three handlers that tag their result, exact or not; constructed: lookup of the unregistered subclass
 (by the call or by a HandlerProbe), exact registration of X, the call again; the cold reference makes the same registrations in the
 same order and evaluates the call first.
+Extension operations (sub 'history'): 'registry' entries may ask for the handler of an operation that is no builtin one ('serialize' /
+'measure': HandlerProbe with raise_exc=False or True, the handler - if any - applied to the target); step 'opreg' registers such an
+operation on the history's Glommer registry (TargetRegistry.register_op(name, auto_func, exact): auto_func serving every type, only
+iterable types, or none).  Constructed shape opreg-sandwich: the probe BEFORE the operation exists, register_op, the probe / the strict
+lookup again (and a class looked up for the first time as control); the cold reference registers the same operations in the same order
+and evaluates the call first.  (Never on the module-level registry: an operation cannot be removed again, and every Glommer made
+later copies the module's operations.)
 
 Oracles
   frame       before/after every call the structure-and-identity snapshot of the target, of the spec
@@ -56,16 +63,20 @@ warnings.filterwarnings('ignore', message=".*have changed behavior in glom versi
 
 PROPERTY = 'C06'
 RULE = ('histories of 3-12 steps over a pool of 2-4 (target, spec) pairs; steps: call / call-same-spec-object / flood n / '
-        'flood 10050 / toggle PATH_STAR / register / Glommer register + call; pool entries include a custom spec probing '
-        'get_handler(op, target, raise_exc=False) and calls needing that handler. Sub fold: a default-op fold over [x, e, y, ..] of an '
+        'flood 10050 / toggle PATH_STAR / register / Glommer register + call / register_op of an extension operation on the Glommer; pool '
+        'entries include a custom spec probing get_handler(op, target, raise_exc=False) - builtin and extension operations - and calls '
+        'needing that handler. Sub fold: a default-op fold over [x, e, y, ..] of an '
         'additive user class evaluated 2-3 times (same element objects in half of the cases). Sub exactreg: lookup of a subclass, exact '
         'registration of its registered base with another handler, the call again. Non-trivial = >= 3 steps with, before a compared '
-        'call, a repeat of the same spec object, a cache flood, a toggle, a registry probe or an exact registration after a lookup.')
+        'call, a repeat of the same spec object, a cache flood, a toggle, a registry probe, an exact registration after a lookup or a '
+        'register_op after a probe of that operation.')
 ASSUMPTIONS = [
     'the pristine reference is a forked child of a fresh interpreter that imported glom but never called it (vf/cold.py)',
     'outcomes are compared canonically: structure with types and sharing pattern, error class and message with addresses stripped',
     'module-level registrations are of fresh throw-away classes (they accumulate in the worker process and must not change any outcome); '
     'those of xreg steps are of an attribute-only class made for the one history, for get only, and are repeated by the cold reference',
+    'extension operations are registered on the Glommer made for the one history only, through Glommer.scope[TargetRegistry].register_op '
+    '(a Glommer has no register_op of its own); the cold reference registers them on its own Glommer in the same order',
     'vecfold entries: the element classes define + / += / 0 + x themselves; what the fold returns is compared with the pristine process only, '
     'the elements must be the same objects with the same contents after every call',
 ]
@@ -102,6 +113,8 @@ class HandlerProbe(object):
         out = ['handler', getattr(handler, '__name__', type(handler).__name__)]
         if self.op in ('iterate', 'keys'):
             out.append(list(handler(target)))
+        elif self.op in EXT_OPS:
+            out.append(handler(target))         # an extension operation is there to be used
         return out
 
     def __repr__(self):
@@ -126,6 +139,9 @@ REG_TYPES = {
 MID_TAGS = ['middict', 'midlist', 'midobj']
 REG_TAGS = sorted(t_ for t_ in REG_TYPES if t_ not in MID_TAGS)      # the one-level tags: what 'registry' entries draw from
 REG_OPS = ['iterate', 'get', 'keys', 'assign', 'delete']
+# extension operations (TargetRegistry.register_op "add operations beyond the builtins"): no registry has them until an
+# 'opreg' step of the history registers them on the history's Glommer
+EXT_OPS = ['measure', 'serialize']
 REG_GET_PATH = {'opaque': 'a', 'intsub': 'real', 'strsub': 'zz', 'listsub': '1', 'tuplesub': '0', 'dictsub': 'b',
                 'midlist': '1', 'middict': 'b', 'midobj': 'a'}
 # forms of a call that NEEDS the handler of the operation ('strict': the custom spec asking with raise_exc=True;
@@ -136,6 +152,8 @@ REG_FORMS = {
     'keys': ['star', 'starstar', 'strict'],
     'assign': ['strict'],
     'delete': ['strict'],
+    'measure': ['strict'],
+    'serialize': ['strict'],
 }
 # generator-side knowledge (the labels are measured from what the probe returns): pairs without a handler on a default
 # registry - non-iterables, objects that are neither mapping nor __dict__-carrying, immutable builtins
@@ -248,11 +266,37 @@ XREG_OPS = {'listsub': ['iterate', 'get'], 'tuplesub': ['iterate', 'get'], 'dict
 XREG_DEFAULT_TAGS = ['dictsub', 'listsub', 'tuplesub']      # subclasses of default types of every registry
 
 
+# ---- extension operations (step 'opreg'): what auto_func answers per type, and handlers that show which one was used
+def ext_any(obj):
+    return ['ext-any', _plain_items(obj)]
+
+
+def ext_iter(obj):
+    return ['ext-iter', len(_plain_items(obj))]
+
+
+def auto_any(type_obj):
+    return ext_any
+
+
+def auto_iterable(type_obj):
+    return ext_iter if callable(getattr(type_obj, '__iter__', None)) else False
+
+
+EXT_AUTO = {'any': auto_any, 'iterable': auto_iterable, 'none': None}     # (None: the documented default, no type is supported)
+
+
 def apply_reg(registry, reg, env):
     """one registration of a history on `registry` (the glom module or a Glommer); shared with the cold server.
-    ['slots']: tg.Slots, get=custom_get (step 'greg');  [tag, which, op, handler name, exact] (step 'xreg')"""
+    ['slots']: tg.Slots, get=custom_get (step 'greg');  [tag, which, op, handler name, exact] (step 'xreg');
+    ['op', name, auto_func name, exact]: register_op on the Glommer's registry (step 'opreg')"""
     if reg[0] == 'slots':
         registry.register(tg.Slots, get=custom_get)
+        return
+    if reg[0] == 'op':
+        if registry is glom or reg[1] not in EXT_OPS:
+            raise HarnessBug('register_op(%r) on %r' % (reg[1], registry))
+        registry.scope[TargetRegistry].register_op(reg[1], auto_func=EXT_AUTO[reg[2]], exact=bool(reg[3]))
         return
     tag, which, op, hname, exact = reg
     cls = reg_class(tag, env, which)
@@ -300,6 +344,8 @@ def c16_item(v):
     if v[0] == 'D':
         from decimal import Decimal
         return Decimal(v[1])
+    if v[0] == 'V' and hasattr(c16, 'VECS'):
+        return c16.VECS[v[1]](*v[2:])       # c16's vectors of a sum()-friendly class (its Avg inputs)
     raise ValueError('C16 item %r' % (v,))
 
 
@@ -495,7 +541,7 @@ def build_entry(kind, r, env=None):
 
 def gen_registry(draw, pair=None, probe=None):
     op, tag = pair or (draw(st.sampled_from(REG_UNHANDLED)) if draw(st.booleans()) else
-                       [draw(st.sampled_from(REG_OPS)), draw(st.sampled_from(REG_TAGS))])
+                       [draw(st.sampled_from(REG_OPS + EXT_OPS)), draw(st.sampled_from(REG_TAGS))])
     if probe is None:
         probe = draw(st.booleans())
     form = 'probe' if probe else draw(st.sampled_from(REG_FORMS[op]))
@@ -619,17 +665,29 @@ def gen_entry(draw):
     return {'kind': kind, 'recipe': r}
 
 
-def gen_steps(draw, n, count):
+STEP_KINDS = ['call', 'call', 'same', 'same', 'same', 'flood', 'toggle', 'register', 'greg', 'gcall', 'gcall', 'gsame', 'specglom']
+
+
+def gen_steps(draw, n, count, opreg=False):
+    """opreg: register_op steps too (sub 'history'; the other subs keep the step kinds they were tuned with)"""
     steps = []
     for _ in range(count):
-        k = draw(st.sampled_from(['call', 'call', 'same', 'same', 'same', 'flood', 'toggle', 'register', 'greg', 'gcall', 'gcall', 'gsame', 'specglom']))
+        k = draw(st.sampled_from(STEP_KINDS + ['opreg'] if opreg else STEP_KINDS))
         if k in ('call', 'same', 'gcall', 'gsame', 'specglom'):
             steps.append([k, draw(st.integers(0, n - 1))])
+        elif k == 'opreg':
+            steps.append(gen_opreg(draw))
         elif k == 'flood':
             steps.append(['flood', draw(st.sampled_from([3, 50, 50, 10050]))])
         else:
             steps.append([k])
     return steps
+
+
+def gen_opreg(draw, op=None):
+    """a register_op step, on the history's Glommer: [_, where, operation, auto_func name, exact]"""
+    return ['opreg', 'glommer', op or draw(st.sampled_from(EXT_OPS)), draw(st.sampled_from(['any', 'any', 'iterable', 'any', 'iterable', 'none', 'any'])),
+            draw(st.sampled_from(range(8))) == 7]
 
 
 def weave(draw, core, extra):
@@ -645,9 +703,11 @@ def weave(draw, core, extra):
 def gen(draw):
     pool = [gen_entry(draw) for _ in range(draw(st.integers(2, 4)))]
     n = len(pool)
-    steps = gen_steps(draw, n, draw(st.integers(3, 12)))
+    steps = gen_steps(draw, n, draw(st.integers(3, 12)), opreg=True)
     # constructed histories (not left to chance): the same call before and after the event that could change it
     shape = draw(st.sampled_from(['free', 'free', 'probe-sandwich', 'toggle-sandwich', 'repeat-inputs', 'greg-sandwich', 'flood-sandwich', 'toggle-sandwich', 'repeat-inputs', 'probe-sandwich', 'free']))
+    if shape == 'free' and draw(st.sampled_from(range(3))) == 2:
+        shape = 'opreg-sandwich'        # (taken from the share of the free histories: the other constructed shapes keep theirs)
     if shape != 'free':
         if shape == 'repeat-inputs':
             # the same call again with the very same input objects: a caller-supplied path= list handed in twice, a Match
@@ -671,6 +731,27 @@ def gen(draw):
             core = [[draw(st.sampled_from(via)), 1], [draw(st.sampled_from(via)), 0]]
             if draw(st.booleans()):
                 core.insert(0, [draw(st.sampled_from(via)), 0])
+        elif shape == 'opreg-sandwich':
+            # a custom spec asks for the handler of an extension operation with raise_exc=False BEFORE the operation exists, then
+            # register_op(name, auto_func) on that registry, then the probe / the strict lookup again; control: an instance of
+            # another class, looked up for the first time after the registration
+            op = draw(st.sampled_from(EXT_OPS))
+            tag = draw(st.sampled_from(REG_TAGS))
+            pool[0] = {'kind': 'registry', 'recipe': {'op': op, 'type': tag, 'form': 'probe'}}
+            pool[1] = {'kind': 'registry', 'recipe': {'op': op, 'type': tag, 'form': 'strict'}}
+            via = ['gcall', 'gsame']
+            core = [[draw(st.sampled_from(via)), 0], gen_opreg(draw, op)]
+            if draw(st.sampled_from(range(3))) == 0:
+                core.insert(0, [draw(st.sampled_from(via)), 1])       # (a lookup that raises leaves nothing behind)
+            after = draw(st.sampled_from([[1, 0], [0], [1], [0, 1]]))
+            if len(pool) > 2 and draw(st.booleans()):
+                other = draw(st.sampled_from([t_ for t_ in REG_TAGS if t_ != tag]))
+                pool[2] = {'kind': 'registry', 'recipe': {'op': op, 'type': other, 'form': draw(st.sampled_from(['probe', 'strict']))}}
+                after = after + [2]
+            core += [[draw(st.sampled_from(via)), i_] for i_ in after]
+            if draw(st.sampled_from(range(4))) == 0:
+                # the operation registered once more (another auto_func), the lookups once more
+                core += [gen_opreg(draw, op), [draw(st.sampled_from(via)), draw(st.sampled_from([0, 1]))]]
         elif shape == 'greg-sandwich':
             inner = ['slotsc', [['b', ['i', draw(st.integers(0, 9))]]]]
             pool[0] = {'kind': 'slotpath', 'recipe': {'target': ['slotsc', [['a', inner], ['c', ['s', 'x']]]],
@@ -801,6 +882,9 @@ def check(recipe, ctx):
     in_tree = set()         # (registry, type tag): the tag's base class was registered without exact
     looked = set()          # (registry, type tag, op) looked up since the last registration on that registry
     pending = {}            # (registry, type tag, op): X registered exact=True after a lookup of its unregistered subclass
+    unserved = set()        # (registry, op, type tag): 'no handler' answered to a raise_exc=False probe, then register_op(op) on that
+                            # registry, and no register() on it since
+    ext_ops = set()         # (registry, op): the extension operations registered so far
     same_target = {}
     labelled = set()
 
@@ -844,6 +928,24 @@ def check(recipe, ctx):
                 probed = dict((k_, v_) for k_, v_ in probed.items() if k_[0] != 'glommer')
                 looked = set(k_ for k_ in looked if k_[0] != 'glommer')
                 pending = dict((k_, v_) for k_, v_ in pending.items() if k_[0] != 'glommer')
+                unserved = set(k_ for k_ in unserved if k_[0] != 'glommer')
+                continue
+            if k == 'opreg':
+                where, op, auto, exact = step[1:]
+                apply_reg(g, ['op', op, auto, exact], env)
+                regs[where].append(['op', op, auto, exact])
+                once('opreg')
+                if (where, op) in ext_ops:
+                    once('opreg-again')
+                ext_ops.add((where, op))
+                for k_, v_ in probed.items():
+                    if k_[0] == where and k_[1] == op and v_ == ['no-handler']:
+                        unserved.add(k_)
+                        history_markers += 1
+                        once('opreg-after-probe')
+                probed = dict((k_, v_) for k_, v_ in probed.items() if k_[0] != where)
+                looked = set(k_ for k_ in looked if k_[0] != where)
+                pending = dict((k_, v_) for k_, v_ in pending.items() if k_[0] != where)
                 continue
             if k == 'xreg':
                 where, tag, which, op, hname, exact = step[1:]
@@ -857,6 +959,7 @@ def check(recipe, ctx):
                     in_tree.add((where, tag))
                 probed = dict((k_, v_) for k_, v_ in probed.items() if k_[0] != where)
                 pending = dict((k_, v_) for k_, v_ in pending.items() if k_[0] != where)
+                unserved = set(k_ for k_ in unserved if k_[0] != where)
                 if exact and known and (where, tag, op) in looked:
                     pending[(where, tag, op)] = tag in XREG_DEFAULT_TAGS
                     history_markers += 1
@@ -963,6 +1066,19 @@ def check(recipe, ctx):
                     once('need-after-exact-reg', 'need-after-exact-reg-' + ('default-type' if pending.pop(lkey) else 'registered-type'),
                               'need-after-exact-reg-' + lkey[0])
                 pkey = ('glommer' if via_glommer else 'module', r_['op'], r_['type'])
+                if r_['op'] in EXT_OPS:
+                    # (labels from the reference's answer) an extension operation: looked up before / after it was registered;
+                    # after a registration that follows a 'no handler' answer for this very type; served by the operation
+                    served = resp['outcome'][0] == 'ok' and 'ext-' in resp['outcome'][1]
+                    once('ext-lookup', 'ext-lookup-' + ('registered' if pkey[:2] in ext_ops else 'unregistered'))
+                    if served:
+                        once('ext-served')
+                    if pkey in unserved:
+                        once('ext-lookup-after-opreg', 'ext-lookup-after-opreg-' + r_['form'])
+                        if served:
+                            once('ext-served-after-opreg', 'ext-served-after-opreg-' + r_['form'])
+                    elif served and pkey not in probed:
+                        once('ext-served-control')       # (not probed since the last registration: nothing memoised to go stale)
                 if r_['form'] == 'probe':
                     ctx.label('registry-probe')
                     history_markers += 1
@@ -1008,7 +1124,14 @@ SUBS = [
                 'need-after-exact-reg-module': 0.09, 'need-after-exact-reg-glommer': 0.18, 'xreg-fuzzy': 0.3},
         doc='lookup of an unregistered subclass, then register(X, op=other handler, exact=True) for an X already in the type tree, then the call again'),
     Sub('history', check, gen=gen, quick=1600, thorough=4000,
-        floors={'toggle': 0.2, 'flood-small': 0.06, 'flood-big': 0.04, 'glommer-register': 0.12, 'shape-greg-sandwich': 0.03, 'shape-toggle-sandwich': 0.04, 'scope-literal': 0.03,
+        # (toggle / flood-small / glommer-register / shape-greg-sandwich: lowered when the opreg steps and the opreg-sandwich shape took
+        # their share of the step mix - observed at seeds 1-3 since: 0.33-0.39 / 0.074-0.12 / 0.115-0.2 / 0.041-0.08)
+        floors={'toggle': 0.19, 'flood-small': 0.04, 'flood-big': 0.04, 'glommer-register': 0.065, 'shape-greg-sandwich': 0.024, 'shape-toggle-sandwich': 0.04, 'scope-literal': 0.03,
                 'caller-path': 0.08, 'caller-path-reused': 0.008, 'optional-defaults': 0.06, 'optional-defaults-failing': 0.02,
-                'shape-probe-sandwich': 0.04, 'shape-repeat-inputs': 0.03, 'registry-probe': 0.08, 'need-after-probe-unhandled': 0.03, 'need-after-probe-handled': 0.01}),
+                'shape-probe-sandwich': 0.04, 'shape-repeat-inputs': 0.03, 'registry-probe': 0.08, 'need-after-probe-unhandled': 0.03, 'need-after-probe-handled': 0.01,
+                # register_op of an extension operation after a raise_exc=False probe of it answered 'no handler' for the type, then the
+                # lookup again (served: the reference, which registers first, gets a handler from the operation's auto_func)
+                'shape-opreg-sandwich': 0.028, 'opreg': 0.06, 'opreg-after-probe': 0.027, 'ext-lookup-after-opreg': 0.027,
+                'ext-served-after-opreg': 0.019, 'ext-served-after-opreg-probe': 0.017, 'ext-served-after-opreg-strict': 0.015,
+                'ext-served-control': 0.004}),
 ]
